@@ -56,7 +56,7 @@ def run(ctx):
         # the judge: the handler -- a def, an alias, or a function made by a
         # factory in the class body -- interpreted on abstract operands
         jwit = None
-        if kind not in ("getitem", "getattr", "identity", "lookup") \
+        if kind not in ("identity", "lookup") \
                 and res.via != "unsupported":
             from .. import evaljudge
             try:
